@@ -96,6 +96,16 @@ Theorem c07_tables :
   tx_not_queued = [bs "MULTI"; bs "EXEC"; bs "DISCARD"; bs "WATCH"; bs "UNWATCH"].
 Proof. vm_compute. reflexivity. Qed.
 
+(** "each does what the same command does when sent directly" for the commands that speak about
+    the connection itself (outside the model: CLIENT has no state in [conn]): every dispatch arm
+    of process_normal_command that uses the connection id is run by handle_exec with the id of
+    the connection that sent EXEC, not with the placeholder 0 the data commands run with - both
+    lists regenerated from server.rs on every run.  Before b11ef93 CLIENT was missing: queued
+    CLIENT ID answered 0, CLIENT GETNAME / SETNAME "connection not found". *)
+Theorem c07_connection_level_commands_run_for_their_connection :
+  forallb (fun n => bmem n exec_arms_with_conn_id || bmem n [bs "BLPOP"; bs "BRPOP"]) pnc_arms_using_conn_id = true.
+Proof. exact exec_conn_level_arms_ok. Qed.
+
 (** 51742a5: no command is dispatched ahead of the queueing test any more *)
 Theorem c07_nothing_runs_immediately : tx_immediate = [].
 Proof. vm_compute. reflexivity. Qed.
